@@ -84,6 +84,40 @@ def generate_direct(rng, tier: str, kind: dict) -> dict:
     return {'mode': 'direct', 'micro_seed': rng.randint(1, 1 << 48), 'knobs': knobs(rng, tick=0.002), 'kind': kind, 'collections': cols}
 
 
+def grid(tier: str):
+    """direct packing, one family at a time, the room left by the attributes stepping through the switch of the MP attribute
+    to its extended-length header (255/256 bytes of value) - the cells sampling only meets now and then"""
+    from exasim.choice import Rng
+
+    plans = []
+    n = 0
+    rooms = range(250, 276) if tier == 'quick' else range(236, 300)
+    for fam, per in (('v6u', 17), ('v4l', 8), ('v4vpn', 16)):
+        for ap in (False, True):
+            for room in rooms:
+                n += 1
+                rng = Rng(6000 + n)
+                kind = RT.gen_kind(rng, 0)
+                kind.pop('ap_local', None)
+                kind.pop('ap_peer', None)
+                kind.update({'extmsg': False, 'group_updates': True, 'addpath': ap, 'peer_drops': []})
+                count = room // (per + (4 if ap else 0)) + 2
+                ann = []
+                for i in range(count):
+                    if fam == 'v6u':
+                        r = {'fam': 'v6u', 'p': f'2001:db8:0:{i + 1:x}::1/128', 'nh': '2001:db8::1'}
+                    elif fam == 'v4l':
+                        r = {'fam': 'v4l', 'p': f'10.0.{i >> 8}.{i & 255}/32', 'nh': '10.0.0.9', 'labels': [100 + i]}
+                    else:
+                        r = {'fam': 'v4vpn', 'p': f'10.0.{i >> 8}.{i & 255}/32', 'nh': '10.0.0.9', 'labels': [100 + i], 'rd': '65000:1'}
+                    if ap:
+                        r['pid'] = 1
+                    ann.append(r)
+                plans.append({'mode': 'direct', 'micro_seed': 6000 + n, 'knobs': {'tick': 0.002, 'drift': 0.0, 'wall_step': 0.0}, 'kind': kind,
+                              'collections': [{'attrs': {}, 'room': room, 'announce': ann, 'withdraw': []}]})  # fmt: skip
+    return plans
+
+
 def generate(rng, tier: str, index: int) -> dict:
     kind = RT.gen_kind(rng, 0)
     kind['extmsg'] = rng.chance(0.35)
